@@ -402,6 +402,46 @@ def instances_check(ctx):
     rep.extra["instances_checked"] = n
 
 
+def respelled_check(ctx):
+    """One process, one primitive, two calls whose parameters are equal as numbers and written differently (`1*K` / `1000*UNIT`,
+    an int / a prefixed number, a string / a number): each instance carries the prefix and value *it* was given, whichever call
+    came first — parameters reach the package unchanged, not as an equal value met earlier (seed C13-r8-1: calls shared by equality)."""
+    rep = ctx.rep
+    import hdl21.primitives as P
+
+    K, MILLI, MICRO, NANO, PICO, UNIT = Prefix.KILO, Prefix.MILLI, Prefix.MICRO, Prefix.NANO, Prefix.PICO, Prefix.UNIT
+    pairs = [(1 * K, 1000 * UNIT), (1000 * NANO, 1 * MICRO), (100 * PICO, Decimal("0.10") * NANO), (0 * MILLI, 0 * UNIT), (1000, 1 * K), ("1e3", 1 * K),
+             (2 * MILLI, Decimal("0.002") * UNIT), (5, 5 * UNIT)]
+    for pname, vname in IDEAL.items():
+        prim = getattr(P, pname)
+        fields = list(prim.Params.__params__.keys())
+        ports = list(prim.ports.keys())
+        for f in fields[:2]:
+            key = PULSE[f] if pname == "PulseVoltageSource" else f
+            for a, b in pairs:
+                for first, second in ((a, b), (b, a)):
+                    case = {"stream": "respelled", "prim": pname, "field": f, "first": repr(first), "second": repr(second)}
+                    rep.count("respelled", json.dumps(case))
+                    try:
+                        c0, c1 = prim(**{f: first}), prim(**{f: second})
+                    except Exception:
+                        continue  # not a Scalar field
+                    m = h.Module(name="T")
+                    for pn in ports:
+                        m.add(h.Signal(name=pn))
+                    m.x0 = c0(**{pn: getattr(m, pn) for pn in ports})
+                    m.x1 = c1(**{pn: getattr(m, pn) for pn in ports})
+                    try:
+                        pkg = h.to_proto(m)
+                    except Exception as ex:
+                        rep.fail("pred", case, f"export raised {type(ex).__name__}: {ex}")
+                        continue
+                    for inst, raw in zip(pkg.modules[0].instances, (first, second)):
+                        got = {p_.name: pval_exact(p_.value) for p_ in inst.parameters}.get(key)
+                        if got != scalar_expect(raw):
+                            rep.fail("pred", case, {"why": f"{inst.name}.{key} is not what this instance was given", "got": str(got), "want": str(scalar_expect(raw))})
+
+
 def gen_values(rng, n):
     out = []
     P = lambda c, e, p: {"k": "prefixed", "c": str(c), "e": e, "p": p}
@@ -444,6 +484,7 @@ def run(ctx):
     )
     SV.run(ctx, gen_values(ctx.rng, 4000 if ctx.quick else 150000))
     instances_check(ctx)
+    respelled_check(ctx)
 
 
 def replay(ctx, rp):
